@@ -410,8 +410,10 @@ func c10Gen(r *rand.Rand, emit0 vutil.Emit) {
 		}
 		emit0(fields...)
 	}
-	mixed := os.Getenv("C10_MIXED_MAC") != ""
 	for b := 0; b < blocks; b++ {
+		// a quarter of the histories mix 6-byte and 8-byte hardware addresses
+		// that agree on the first six bytes (R5)
+		mixed := os.Getenv("C10_MIXED_MAC") != "" || r.IntN(4) == 0
 		// configuration
 		var gw, start, stop uint32
 		mask := 24
